@@ -159,6 +159,22 @@ func valueRoots(v ssa.Value, through func(callee string) bool) []Root {
 			default:
 				out = append(out, Root{Kind: "other", V: x})
 			}
+		case *ssa.Lookup:
+			/* An element of a map made in this function: whatever was put
+			into it. */
+			if mm, ok := resolveCell(x.X).(*ssa.MakeMap); ok {
+				n := 0
+				for _, ref := range *mm.Referrers() {
+					if mu, isMU := ref.(*ssa.MapUpdate); isMU && mu.Map == ssa.Value(mm) {
+						n++
+						walk(mu.Value)
+					}
+				}
+				if n > 0 {
+					return
+				}
+			}
+			out = append(out, Root{Kind: "other", V: x})
 		case *ssa.Alloc:
 			out = append(out, Root{Kind: "alloc", V: x})
 		case *ssa.MakeSlice, *ssa.MakeMap, *ssa.MakeChan, *ssa.MakeClosure, *ssa.Function, *ssa.Global:
